@@ -48,6 +48,9 @@ func classes(f iogen.SeqFile) []string {
 	if len(f.Recs) == 0 {
 		l = append(l, "no-records")
 	}
+	if len(f.Recs) >= 30 {
+		l = append(l, "many-short-reads")
+	}
 	lo, hi := 0, 0
 	if f.Format == "fastq" {
 		lo, hi = iogen.PhredRange(alphabet.Encoding(f.Enc))
@@ -60,6 +63,9 @@ func classes(f iogen.SeqFile) []string {
 		}
 		if r.Len > 8192 {
 			seen["seq>8192"] = true
+		}
+		if r.Len >= 65536 {
+			seen["seq>=65536"] = true
 		}
 		if r.Len == 0 {
 			seen["empty-seq"] = true
